@@ -323,13 +323,13 @@ fn hash_coherent<const LA: usize, const LB: usize>() {
 }
 
 #[kani::proof]
-#[kani::unwind(26)]
+#[kani::unwind(19)]
 fn c20_vc_hash_la01() {
     all_lb!(hash_coherent, 0);
     all_lb!(hash_coherent, 1);
 }
 #[kani::proof]
-#[kani::unwind(26)]
+#[kani::unwind(19)]
 fn c20_vc_hash_la23() {
     all_lb!(hash_coherent, 2);
     all_lb!(hash_coherent, 3);
